@@ -28,7 +28,9 @@ func pureTableHelper(f *ssa.Function) bool {
 	}
 	for i := 0; i < res.Len(); i++ {
 		t := res.At(i).Type()
-		if _, ok := t.Underlying().(*types.Basic); !ok && !eng.IsErrorType(t) {
+		_, isBasic := t.Underlying().(*types.Basic)
+		_, isStruct := t.Underlying().(*types.Struct) // a small record of decoded header fields
+		if !isBasic && !isStruct && !eng.IsErrorType(t) {
 			return false
 		}
 	}
@@ -128,7 +130,7 @@ func typeWordEvalRule(p *core.Program, r *core.Report, rule string) {
 						args[i] = eng.Top
 					}
 					args[gIdx] = eng.DynV(dyn)
-					top := ev.Run(wfn, args)
+					top := ev.RunStable(wfn, args)
 					// 32-bit writes of the top activation in source order
 					type wr struct {
 						pos int
@@ -228,17 +230,12 @@ func typeWordEvalRule(p *core.Program, r *core.Report, rule string) {
 		if rfn == nil {
 			continue
 		}
-		// the first ReadUInt32 of Read in source order is the type word
-		var first *ssa.Call
-		for _, c := range eng.Calls(rfn) {
-			if cc, ok := c.(*ssa.Call); ok {
-				if f := cc.Call.StaticCallee(); f != nil && f.Name() == "ReadUInt32" {
-					if first == nil || cc.Pos() < first.Pos() {
-						first = cc
-					}
-				}
-			}
-		}
+		// the first ReadUInt32 reached from Read's entry (dominator preorder, descending into helpers of the package)
+		// is the type word
+		first := eng.FirstCall(rfn, func(cc *ssa.Call) bool {
+			f := cc.Call.StaticCallee()
+			return f != nil && f.Name() == "ReadUInt32"
+		}, 0)
 		if first == nil {
 			r.Lost(rule, short+".Read/type-word", "Read no longer decodes a 32-bit word with ReadUInt32")
 			continue
@@ -258,37 +255,32 @@ func typeWordEvalRule(p *core.Program, r *core.Report, rule string) {
 				}
 				return eng.CVal{}, false
 			}
-			top := ev.Run(rfn, nil)
+			top := ev.RunStable(rfn, nil)
 			var out []ctor
-			for _, b := range rfn.Blocks {
-				if !top.Reach[b] {
-					continue
-				}
-				for _, in := range b.Instrs {
-					if ta, isTA := in.(*ssa.TypeAssert); isTA && ta.CommaOk {
-						if ex, isE := ta.X.(*ssa.Extract); isE {
-							if rc, isC := ex.Tuple.(*ssa.Call); isC && rc.Call.StaticCallee() == rfn {
-								asserts[eng.TypeShort(ta.AssertedType)] = true
-							}
+			eng.WalkReached(top, func(act *eng.CEResult, in ssa.Instruction) {
+				if ta, isTA := in.(*ssa.TypeAssert); isTA && ta.CommaOk {
+					if ex, isE := ta.X.(*ssa.Extract); isE {
+						if rc, isC := ex.Tuple.(*ssa.Call); isC && rc.Call.StaticCallee() == rfn {
+							asserts[eng.TypeShort(ta.AssertedType)] = true
 						}
 					}
-					c, ok := in.(*ssa.Call)
-					if !ok {
-						continue
-					}
-					f := c.Call.StaticCallee()
-					if f == nil || !strings.HasPrefix(f.Name(), "New") || core.FnPkgPath(f) != core.ModPath {
-						continue
-					}
-					ct := ctor{name: f.Name()}
-					if len(c.Call.Args) > 0 {
-						if n, ok := c.Call.Args[0].Type().(*types.Named); ok && n.Obj().Name() == "Layout" {
-							ct.layout, ct.hasL = top.Of(c.Call.Args[0]), true
-						}
-					}
-					out = append(out, ct)
 				}
-			}
+				c, ok := in.(*ssa.Call)
+				if !ok {
+					return
+				}
+				f := c.Call.StaticCallee()
+				if f == nil || !strings.HasPrefix(f.Name(), "New") || core.FnPkgPath(f) != core.ModPath {
+					return
+				}
+				ct := ctor{name: f.Name()}
+				if len(c.Call.Args) > 0 {
+					if n, ok := c.Call.Args[0].Type().(*types.Named); ok && n.Obj().Name() == "Layout" {
+						ct.layout, ct.hasL = act.Of(c.Call.Args[0]), true
+					}
+				}
+				out = append(out, ct)
+			})
 			return out
 		}
 		check := func(word int64, tn, l string) {
